@@ -239,6 +239,9 @@ func main() {
 	for _, x := range w {
 		total += x
 	}
+	if *seed%8 != 7 {
+		stallRotations(&stop)
+	}
 	var wg sync.WaitGroup
 	for g := 0; g < *gor; g++ {
 		wg.Add(1)
